@@ -436,6 +436,13 @@ func TestC02(t *testing.T) {
 }
 
 var c02Corpus = []valCase{
+	// oneOf literals whose single member is unknown, null, or both; several members; a variable
+	{Schema: c08Schema, Query: `{ a(choice: {nosuch: null}) { n } }`}, {Schema: c08Schema, Query: `{ a(choice: {nosuch: 1}) { n } }`}, {Schema: c08Schema, Query: `{ a(choice: {a: null}) { n } }`},
+	{Schema: c08Schema, Query: `{ a(choice: {nosuch: null, a: null}) { n } }`}, {Schema: c08Schema, Query: `{ a { n } } fragment Unused on Query { a(choice: {nosuch: null}) { n } }`},
+	{Schema: c08Schema, Query: `query ($c: Choice = {nosuch: null}) { a(choice: $c) { n } x: a(filter: {limit: 1, nested: {nosuch: null}}) { n } }`},
+	// interface fields with more / fewer list levels than the implementer's
+	{Schema: "interface I { f: [String] g: [[Int]] h: Int } type Query implements I { f: String g: [Int] h: [Int] }", Query: "{ f }"},
+	{Schema: "interface I { f: [[String!]!]! } interface J implements I { f: [String!]! } type Query implements I & J { f: String! }", Query: "{ f }"},
 	{Schema: c08Schema, Query: `{ a(choice: {a: $undefined}) { n } }`},
 	{Schema: c08Schema, Query: `{ a { n } } fragment G on Query { a(choice: {a: $v}) { n } }`},
 	{Schema: "interface I { f: U } type A implements I { f: X } type X { a: Int } union U = Missing type Query { a: A }", Query: "{ a { f { a } } }"},
